@@ -156,4 +156,38 @@ CLAIMED["C18"] = {
     "note": TRUST + " Doubles are treated as reals: rounding and underflow are ignored.",
 }
 
+CLAIMED["C08"] = {
+    "technique": "SPMD uniformity analysis by control dependence over the CFG (barriers vs thread-varying data), per-iteration must-pass path rules on the worker and drain loops, switch/table exhaustiveness, order-type conservation of the vote counter",
+    "text": ("Decided on every run: none of the 7 thread-barrier call sites (nor any caller of a function containing one) is control-dependent on "
+             "rid, a thread-local, a barrier's result or per-LP data, so every thread reaches every barrier the same number of times; the node "
+             "barrier (3 sites) is entered only by the thread a thread barrier elected (or thread 0); every iteration of the worker loop runs "
+             "mpi_remote_msg_handle and gvt_phase_run, both wait loops of gvt_msg_drain step the GVT automaton, the last also drains MPI, and "
+             "the thread's open round is completed before the first shutdown barrier; control_msg_process and ctrl_msgs[] cover every control "
+             "code with the right handler; LP_FINI is dispatched exactly once per LP; the counter votes depend on is conserved (C07.1). NOT "
+             "decided: liveness under all interleavings of the last vote or a stop request with an open GVT round, MPI progress, spin-loop bounds."),
+    "note": TRUST,
+}
+CLAIMED["C10"] = {
+    "technique": "per-iteration path rules on the serial main loop (dispatch -> exactly one extract+release), comparator-site recogniser on every heap operation, loop-range recognisers for LP_INIT/LP_FINI, dominance of the serial routing test, path-condition rule on the termination counter",
+    "text": ("Decided on every run: the serial main loop dispatches heap_min(queue) and every path from the dispatch back to the loop head passes "
+             "exactly one msg_allocator_free(heap_extract(queue, msg_is_before)), paths leaving the loop keep the event queued and the shutdown "
+             "code releases every queued event; all 4 heap operations use the canonical comparator; LP_INIT (time 0) and LP_FINI are dispatched "
+             "once for each LP of 0..lps, in the order init, run, fini; in serial mode ScheduleNewEvent hands its own arguments to the serial "
+             "scheduler and returns before any parallel-path step, and the serial scheduler inserts every message it packs; an LP is counted "
+             "down once, only while its marker is negative and its predicate holds; the loop stops on 'no LP pending' or 'termination time "
+             "passed'. NOT decided: equality of the dispatch sequence with an independent executor."),
+    "note": TRUST,
+}
+CLAIMED["C14"] = {
+    "technique": "syntactic monotonicity calculus over every expansion of the routing macros, structural decoding of partition_start expansions (routing macro, partition id, loop thresholds), who-may-write on ownership bounds, loop-range recognisers",
+    "text": ("Decided on every run: lid_to_nid and lid_to_rid are non-decreasing in the LP id at every one of their expansion sites (x - c, x * k, "
+             "x / k with positive loop-invariant k; %, ^, & are definite violations); each ownership bound is a partition_start expansion over "
+             "the routing macro of its level whose two search loops are the complementary thresholds (down while >=, up while <), the upper "
+             "bound being the same expression for partition id + 1, so ranges are contiguous, disjoint and cover; the queue index, the "
+             "local/remote decision with its destination rank and the remote anti-message destination are the routing macros applied to the "
+             "message destination; lp_init and lp_fini iterate exactly [lid_thread_first, lid_thread_end) running the per-LP init/fini once. NOT "
+             "decided: 'no idle thread when LPs >= threads' and overflow for identifiers near 2^64."),
+    "note": TRUST + " Counts (n_nodes, n_threads, lps, n_lps_node) are assumed positive; lps == 0 is confirmed rejected by RootsimInit.",
+}
+
 NOT_APPLICABLE = {}
